@@ -38,6 +38,7 @@ func concMain(out, sum string, seed int64, nclients, rounds int) {
 		keyByID[ki.id] = ki.tok
 	}
 	rec := newRecorder()
+	rec.max = 400000
 	ph := service.NewPacketHandler(natT, kr.list, rec, rec)
 	ph.SetTargetIPValidator(loopbackOK)
 	lc, err := listenUDP("udp4", "127.0.0.1:0")
